@@ -1195,4 +1195,5 @@ func main() {
 	e.closePayloadCode(outdir)
 	e.takeoverCode(outdir)
 	e.headerCode(outdir)
+	e.parseCode(outdir)
 }
